@@ -23,6 +23,8 @@ pub struct GenCfg {
     /// when set, every free variable refers to the single enclosing binder with these kinds
     /// (index of a matching kind), i.e. the term is a well-formed `Binders` value
     pub scope_kinds: Option<Vec<Sexp>>,
+    /// constants may have an arbitrary (non-scalar) type
+    pub const_ty_any: bool,
 }
 
 impl Default for GenCfg {
@@ -43,6 +45,7 @@ impl Default for GenCfg {
             consts: true,
             n_infer: 5,
             scope_kinds: None,
+            const_ty_any: false,
         }
     }
 }
@@ -138,7 +141,12 @@ impl<'a> Gen<'a> {
     }
 
     pub fn konst(&mut self, binders: usize) -> Sexp {
-        let ty = tagged("scalar", vec![nat(*self.rng.pick(&SCALAR_CODES))]);
+        let ty = if self.cfg.const_ty_any && self.rng.chance(1, 3) {
+            let d = self.rng.usize_below(2);
+            self.ty(d, binders)
+        } else {
+            tagged("scalar", vec![nat(*self.rng.pick(&SCALAR_CODES))])
+        };
         let w_bound = if binders + self.cfg.free_levels > 0 { 3 } else { 0 };
         let v = match self.rng.weighted(&[
             w_bound,
